@@ -32,16 +32,16 @@ import (
 
 // stimuli (besides the pool's RComplete=4, RAdvance=5, RCancel=2)
 const (
-	SAdd     = 31 // rid pod cid
-	SDel     = 32 // rid pod cid
-	SGet     = 33 // rid pod cid
-	SGC      = 34
-	SPodGone = 35 // pod : deleted from the API server and the node
-	SPodExit = 36 // pod : its sandbox exited (still in the API)
-	SAPIErr  = 37 // flag : PodExist fails
-	SCrash   = 38 // crash + start (a parked store operation is lost / kept according to where it parked)
-	SPark    = 39 // pos : the next store operation parks at 1 before put 2 after put 3 before delete 4 after delete
-	SFailRel = 40 // pod flag : releasing this pod's allocation fails at the interface
+	SAdd      = 31 // rid pod cid
+	SDel      = 32 // rid pod cid
+	SGet      = 33 // rid pod cid
+	SGC       = 34
+	SPodGone  = 35 // pod : deleted from the API server and the node
+	SPodExit  = 36 // pod : its sandbox exited (still in the API)
+	SAPIErr   = 37 // flag : PodExist fails
+	SCrash    = 38 // crash + start (a parked store operation is lost / kept according to where it parked)
+	SPark     = 39 // pos : the next store operation parks at 1 before put 2 after put 3 before delete 4 after delete
+	SFailRel  = 40 // pod flag : releasing this pod's allocation fails at the interface
 	SRecreate = 44 // pod : the pod object is replaced by a new instance of the same name (new uid)
 	// observations
 	EReplyRPC = 41 // rid kind code eni a4 a6   (kind 1 add 2 del 3 get; code 0 ok 1 processing 2 error)
@@ -105,11 +105,11 @@ func (f *fakeK8s) PodExist(namespace, name string) (bool, error) {
 	st, ok := f.pods[podOf(name)]
 	return ok && !st.gone, nil
 }
-func (f *fakeK8s) GetServiceCIDR() *types.IPNetSet                           { return &types.IPNetSet{} }
-func (f *fakeK8s) PatchPodIPInfo(info *daemon.PodInfo, ips string) error    { return nil }
-func (f *fakeK8s) RecordNodeEvent(eventType, reason, message string)        {}
-func (f *fakeK8s) NodeName() string                                          { return "node-1" }
-func (f *fakeK8s) RecordPodEvent(a, b, c, d, e string) error                 { return nil }
+func (f *fakeK8s) GetServiceCIDR() *types.IPNetSet                       { return &types.IPNetSet{} }
+func (f *fakeK8s) PatchPodIPInfo(info *daemon.PodInfo, ips string) error { return nil }
+func (f *fakeK8s) RecordNodeEvent(eventType, reason, message string)     {}
+func (f *fakeK8s) NodeName() string                                      { return "node-1" }
+func (f *fakeK8s) RecordPodEvent(a, b, c, d, e string) error             { return nil }
 
 // ---- recording store: the real DiskStorage, with parking points around every mutation -----------
 
@@ -118,7 +118,7 @@ type recStore struct {
 	inner storage.Storage
 	path  string
 	mu    sync.Mutex
-	park  int           // position at which the next mutation parks (0: none)
+	park  int             // position at which the next mutation parks (0: none)
 	gates []chan struct{} // closed by the crash that ends the parked goroutines
 }
 
@@ -235,17 +235,17 @@ func openStore(path string) (storage.Storage, error) {
 // ---- one scripted run -----------------------------------------------------------------------------
 
 type run struct {
-	w     *pool.World
-	k     *fakeK8s
-	st    *recStore
-	svc   rpc.TerwayBackendServer
-	dir   string
-	gen   int
-	cans  map[int]context.CancelFunc
-	imu   sync.Mutex
-	busy  int // RPCs without a reply yet
-	v4    bool
-	v6    bool
+	w      *pool.World
+	k      *fakeK8s
+	st     *recStore
+	svc    rpc.TerwayBackendServer
+	dir    string
+	gen    int
+	cans   map[int]context.CancelFunc
+	imu    sync.Mutex
+	busy   int // RPCs without a reply yet
+	v4     bool
+	v6     bool
 	uidGen map[int]int
 }
 
